@@ -316,7 +316,9 @@ def _method_obligations(cname, fn, R, core_sigs, core_props, facade_methods, is_
                 elif k.arg == p: how = f"changed:{t}"
             if how and how.startswith("renamed") and not accepts: how = "pos"     # e.g. func -> agg_func=func: a rename the core dictates
             if how and (how.startswith("changed") or how.startswith("renamed")): bad.append(f"line {n.lineno}: `{p}` is passed as {how}")
-            elif how is None and accepts: bad.append(f"line {n.lineno}: `{p}` is accepted by the callee but not passed in {ast.unparse(n.func)}(...)")
+            elif how is None and accepts:
+                if p in _none_guarded(fn, n): continue       # the call sits under `if <p> is None:` - leaving the argument out passes the same value (the default None)
+                bad.append(f"line {n.lineno}: `{p}` is accepted by the callee but not passed in {ast.unparse(n.func)}(...)")
             accepted_somewhere |= bool(how) or accepts
         if not accepted_somewhere: notes.append(p)
     row("passes-arguments", not bad, "the caller's arguments reach the delegated call unchanged" + (": " + "; ".join(bad) if bad else "") +
@@ -346,6 +348,27 @@ def _method_obligations(cname, fn, R, core_sigs, core_props, facade_methods, is_
                 if attr is None or p not in init_attr_params.get(attr, set()): bad.append(f"line {n.lineno}: core parameter `{p}` receives `{src}`, expected the attribute __init__ stored `{p}` in")
         row("passes-window", not bad, "window / min_periods given to rolling() reach the core call through the attributes __init__ stored them in" + (": " + "; ".join(bad) if bad else ""))
     return rows
+
+
+def _none_guarded(fn, call):
+    """parameters known to be None at `call`: names p such that the call lies in the body of an enclosing `if p is None:` (or the else of `if p is not None:`)"""
+    out = set()
+    def walk(stmts, known):
+        for st in stmts:
+            if any(x is call for x in ast.walk(st)):
+                if isinstance(st, ast.If) and isinstance(st.test, ast.Compare) and len(st.test.ops) == 1 and isinstance(st.test.left, ast.Name) \
+                        and isinstance(st.test.comparators[0], ast.Constant) and st.test.comparators[0].value is None:
+                    nm = st.test.left.id
+                    in_body = any(x is call for b in st.body for x in ast.walk(b))
+                    if isinstance(st.test.ops[0], ast.Is) and in_body: known = known | {nm}
+                    if isinstance(st.test.ops[0], ast.IsNot) and not in_body: known = known | {nm}
+                    walk(st.body if in_body else st.orelse, known); return
+                for fld in ("body", "orelse", "finalbody"):
+                    sub = getattr(st, fld, None)
+                    if isinstance(sub, list) and any(x is call for b in sub for x in ast.walk(b)): walk(sub, known); return
+                out.update(known); return
+    walk(fn.body, set())
+    return out
 
 
 def static_obligations(repo, tier):
@@ -593,6 +616,14 @@ def _isnull(x, int_null=True):
 def _num_eq(f, p):
     fn, pn = _isnull(f), _isnull(p, False)
     if fn or pn: return fn and pn
+    if isinstance(f, (pd.Timestamp, np.datetime64)) and isinstance(p, (pd.Timestamp, np.datetime64)):
+        # pandas itself takes temporal cumulative extrema through float64 when a NaT is present (it returns ...00:00:00 for ...00:00:00.000000001):
+        # agreement with pandas is required to float64 resolution of the instant; exactness of the library's own result is C12's clause
+        fv, pv = pd.Timestamp(f).value, pd.Timestamp(p).value
+        return abs(fv - pv) <= max(1, abs(pv) * 2.0 ** -50)
+    if isinstance(f, (pd.Timedelta, np.timedelta64)) and isinstance(p, (pd.Timedelta, np.timedelta64)):
+        fv, pv = pd.Timedelta(f).value, pd.Timedelta(p).value
+        return abs(fv - pv) <= max(1, abs(pv) * 2.0 ** -50)
     try: return abs(float(f) - float(p)) <= 1e-9 * max(1.0, abs(float(p)))
     except Exception: return f == p
 
